@@ -156,6 +156,7 @@ func C07_NewView() {
 	ids := make([]byte, votes)
 	for i, v := range vs {
 		good[i] = env.And(v.instance == vInstance, env.And(v.height == H, env.And(v.view == nvView, env.And(v.snd.isValid(), ref.member(v.snd.id)))))
+		good[i] = env.And(good[i], v.typ == protocol.LEAN_HELIX_VIEW_CHANGE) // a view-change vote, not another signed header of the same layout
 		ids[i] = v.snd.id
 	}
 	env.Assert("C07.votes.quorum", ref.weight(ids, good) >= ref.q())
